@@ -41,10 +41,16 @@ func Auto(r *http.Request, obj any) (err error) {
 	}
 
 	// binding body data by content type.
+	// Notice: only the media type decides, not the text of its parameters ("text/plain; x=a/json").
 	cType := r.Header.Get("Content-Type")
+	mType := cType
+	if pos := strings.IndexByte(cType, ';'); pos >= 0 {
+		mType = cType[:pos]
+	}
+	mType = strings.TrimSpace(mType)
 
 	// basic POST form data binding. content type: "application/x-www-form-urlencoded"
-	if strings.Contains(cType, "/x-www-form-urlencoded") {
+	if mType == "application/x-www-form-urlencoded" {
 		if err = r.ParseForm(); err != nil {
 			return err
 		}
@@ -54,7 +60,7 @@ func Auto(r *http.Request, obj any) (err error) {
 
 	// contains file uploaded form: "multipart/form-data" "multipart/mixed"
 	// strings.HasPrefix(mediaType, "multipart/")
-	if strings.Contains(cType, "/form-data") {
+	if mType == "multipart/form-data" {
 		err = r.ParseMultipartForm(DefaultMaxMemory)
 		if err != nil {
 			return err
@@ -64,12 +70,12 @@ func Auto(r *http.Request, obj any) (err error) {
 	}
 
 	// JSON body request: "application/json"
-	if strings.Contains(cType, "/json") {
+	if strings.HasSuffix(mType, "/json") {
 		return JSON.Bind(r, obj)
 	}
 
 	// XML body request: "text/xml"
-	if strings.Contains(cType, "/xml") {
+	if strings.HasSuffix(mType, "/xml") {
 		return XML.Bind(r, obj)
 	}
 
